@@ -1413,6 +1413,19 @@ def drive(
         deadline=run.deadline,
     )
     timeouts_seen = []
+    # raw per-case outcomes for post-mortems (out/ is git-ignored)
+    try:
+        logdir = os.path.join(ROOT, 'out', 'logs')
+        os.makedirs(logdir, exist_ok=True)
+        with open(os.path.join(logdir, '%s-%s-seed%d.jsonl' % (run.pid, run.tier, run.seed)), 'w') as f:
+            for idx, (case, res) in enumerate(zip(cases, results)):
+                slim = {k: v for k, v in res.items() if k not in ('obs',)}
+                slim['obs'] = [
+                    {k: v for k, v in ob.items() if k not in ('out',)} for ob in res.get('obs', [])
+                ]
+                f.write(json.dumps({'index': idx, 'case': short_case(case), 'res': slim}) + '\n')
+    except OSError:
+        pass
     for idx, (case, res) in enumerate(zip(cases, results)):
         st = res.get('status')
         tag = 'L%d' % case['config']['level']
